@@ -412,12 +412,12 @@ theorem tls_waiters_agree {x y : Bool} (tr : List Event) (h : runTls m init tr =
     List.mem_filter.2 ⟨hj, by simp [isConnectEvent]⟩
   exact (waiters_agree h' mi mj).1
 
-private theorem keep_join (a b : List Event) (res : Bool) :
+theorem filter_keep_join (a b : List Event) (res : Bool) :
     (a ++ Event.joinResolved res :: b).filter (fun e => !isConnectEvent e) =
       a.filter (fun e => !isConnectEvent e) ++ Event.joinResolved res :: b.filter (fun e => !isConnectEvent e) := by
   simp [List.filter_append, isConnectEvent]
 
-private theorem mem_keep {e : Event} {l : List Event} (hc : isConnectEvent e = false) :
+theorem filter_mem_keep {e : Event} {l : List Event} (hc : isConnectEvent e = false) :
     e ∈ l.filter (fun e => !isConnectEvent e) ↔ e ∈ l := by
   simp [List.mem_filter, hc]
 
@@ -430,17 +430,17 @@ theorem tls_close_waits_all (h : runTls m init (a ++ Event.joinResolved res :: b
     (Event.lc (.done r) ∈ a ∨ Event.lc (.drop r) ∈ a ∨ Event.lc (.panic r) ∈ a) ∧
     Event.lc (.start r) ∉ b ∧ Event.lc (.tick r) ∉ b ∧ Event.lc (.done r) ∉ b := by
   have h' := tls_transfer _ h
-  rw [keep_join] at h'
+  rw [filter_keep_join] at h'
   have hs' : Event.lc (.start r) ∈
       a.filter (fun e => !isConnectEvent e) ++ Event.joinResolved res :: b.filter (fun e => !isConnectEvent e) := by
-    rw [← keep_join]; exact (mem_keep rfl).2 hs
+    rw [← filter_keep_join]; exact (filter_mem_keep rfl).2 hs
   obtain ⟨h1, h2, h3, h4, h5⟩ := close_waits_all h' hs'
-  refine ⟨(mem_keep rfl).1 h1, ?_, fun x => h3 ((mem_keep rfl).2 x), fun x => h4 ((mem_keep rfl).2 x),
-    fun x => h5 ((mem_keep rfl).2 x)⟩
+  refine ⟨(filter_mem_keep rfl).1 h1, ?_, fun x => h3 ((filter_mem_keep rfl).2 x), fun x => h4 ((filter_mem_keep rfl).2 x),
+    fun x => h5 ((filter_mem_keep rfl).2 x)⟩
   rcases h2 with x | x | x
-  · exact .inl ((mem_keep rfl).1 x)
-  · exact .inr (.inl ((mem_keep rfl).1 x))
-  · exact .inr (.inr ((mem_keep rfl).1 x))
+  · exact .inl ((filter_mem_keep rfl).1 x)
+  · exact .inr (.inl ((filter_mem_keep rfl).1 x))
+  · exact .inr (.inr ((filter_mem_keep rfl).1 x))
 
 /-- **Graceful shutdown over HTTPS.**  The handler of a request that had started before the
 join resolved, whose client never disconnected and which did not panic, completed before the
@@ -455,15 +455,15 @@ theorem tls_close_waits (h : runTls m init (a ++ Event.joinResolved res :: b) = 
       (step m s (.lc (.respDelivered r))).isSome = true) := by
   have h' := tls_transfer _ h
   have key := fun (e : Event) (hce : isConnectEvent e = false) =>
-    (mem_keep (l := a ++ Event.joinResolved res :: b) hce)
-  rw [keep_join] at h'
+    (filter_mem_keep (l := a ++ Event.joinResolved res :: b) hce)
+  rw [filter_keep_join] at h'
   have conv : ∀ e : Event, isConnectEvent e = false →
       (e ∈ a.filter (fun e => !isConnectEvent e) ++ Event.joinResolved res :: b.filter (fun e => !isConnectEvent e)
         ↔ e ∈ a ++ Event.joinResolved res :: b) := by
-    intro e hce; rw [← keep_join]; exact key e hce
+    intro e hce; rw [← filter_keep_join]; exact key e hce
   obtain ⟨h1, h2, h3⟩ := close_waits h' ((conv _ rfl).2 hs) ((conv _ rfl).2 hc)
     (fun x => hn ((conv _ rfl).1 x)) (fun x => hp ((conv _ rfl).1 x))
-  exact ⟨(mem_keep rfl).1 h1, fun x => h2 ((conv _ rfl).2 x), h3⟩
+  exact ⟨(filter_mem_keep rfl).1 h1, fun x => h2 ((conv _ rfl).2 x), h3⟩
 
 /-- Over HTTPS the port closes earlier: a connect is refused only once the accept loop has
 stopped, and from then on none is accepted (in particular none after shutdown finished). -/
